@@ -91,7 +91,7 @@ func (h *harness) selfTest() {
 	for _, n := range names {
 		st := &scanStats{}
 		if hits := c.scan(positives[n], map[[12]byte]struct{}{}, st); len(hits) == 0 {
-			r.Fatalf("scanner self-test: planted private key not found in shape %q", n)
+			h.fatalf("scanner self-test: planted private key not found in shape %q", n)
 		}
 		r.Count("selftest_positive_controls", 1)
 	}
@@ -102,7 +102,7 @@ func (h *harness) selfTest() {
 	}
 	for _, comp := range []string{"D", "prime1", "prime2", "Dp", "Dq", "Qinv"} {
 		if !found[comp] {
-			r.Fatalf("scanner self-test: RSA component %s not found in a private JWK", comp)
+			h.fatalf("scanner self-test: RSA component %s not found in a private JWK", comp)
 		}
 	}
 	// negative controls: public material only
@@ -113,7 +113,7 @@ func (h *harness) selfTest() {
 	rsPubJSON, _ := json.Marshal(rsPubJWK)
 	for n, neg := range map[string][]byte{"public-jwk": pubJSON, "public-pem": []byte(pubPEM), "rsa-public-jwk": rsPubJSON, "signature": []byte(b64(make([]byte, 64)))} {
 		if hits := c.scan(neg, map[[12]byte]struct{}{}, &scanStats{}); len(hits) != 0 {
-			r.Fatalf("scanner self-test: false hit on %s: %s", n, hits[0].ctx)
+			h.fatalf("scanner self-test: false hit on %s: %s", n, hits[0].ctx)
 		}
 		r.Count("selftest_negative_controls", 1)
 	}
@@ -178,7 +178,7 @@ func (h *harness) publicDIDJSON(did string) string {
 }
 
 func (h *harness) phaseSubjectsAndCredentials(n1 *nodeRef) {
-	w, r := h.w, h.r
+	w := h.w
 	// the world's own set-up (two subjects, one credential) ran before the recorder existed: the same operations again, recorded
 	resp := h.must(h.call(n1, "POST", "/internal/vdr/v2/subject", map[string]any{"subject": "c03-extra", "keys": map[string]any{"assertionKey": true, "encryptionKey": false}}), "create subject")
 	h.known = append(h.known, "c03-extra")
@@ -189,7 +189,7 @@ func (h *harness) phaseSubjectsAndCredentials(n1 *nodeRef) {
 	}
 	_ = resp.JSON(&created)
 	if len(created.Documents) == 0 {
-		r.Fatalf("create subject: no documents in %s", resp)
+		h.fatalf("create subject: no documents in %s", resp)
 	}
 	extra := iamflow.Subject{Name: "c03-extra", DID: created.Documents[0].ID}
 	h.call(n1, "POST", "/internal/vdr/v2/subject", map[string]any{"subject": "c03-extra"}) // duplicate: error path
@@ -204,7 +204,7 @@ func (h *harness) phaseSubjectsAndCredentials(n1 *nodeRef) {
 	h.call(n1, "GET", "/internal/vdr/v2/subject/"+w.Client.Name, nil)
 	for _, d := range []string{w.Client.DID, w.Verifier.DID, extra.DID} {
 		if h.resolve(n1, d) == nil {
-			r.Fatalf("cannot resolve %s", d)
+			h.fatalf("cannot resolve %s", d)
 		}
 		pr := h.public("GET", w.Proxy.URL+h.publicDIDJSON(d), nil, nil)
 		h.emit("did-document", "public", pr.Body)
@@ -218,7 +218,7 @@ func (h *harness) phaseSubjectsAndCredentials(n1 *nodeRef) {
 		for _, sl := range []bool{false, true} {
 			c, err := w.IssueTo(w.Verifier, w.Client.DID, iamflow.IssueOpts{Format: f, StatusList: sl})
 			if err != nil {
-				r.Fatalf("issue %s statuslist=%v: %v", f, sl, err)
+				h.fatalf("issue %s statuslist=%v: %v", f, sl, err)
 			}
 			creds = append(creds, c)
 			if sl {
@@ -228,7 +228,7 @@ func (h *harness) phaseSubjectsAndCredentials(n1 *nodeRef) {
 		}
 	}
 	if _, err := w.IssueOrgCredential(extra, "Extra B.V.", "Extraville", "jwt_vc"); err != nil {
-		r.Fatalf("issue: %v", err)
+		h.fatalf("issue: %v", err)
 	}
 	h.call(n1, "POST", "/internal/vcr/v2/issuer/vc", map[string]any{"type": "NutsOrganizationCredential", "issuer": "did:web:example.com:iam:not-ours", "credentialSubject": map[string]any{"id": w.Client.DID, "organization": map[string]any{"name": "x", "city": "y"}}}) // issuer without key: error path
 	expires := time.Now().Add(time.Hour).UTC().Format(time.RFC3339)
@@ -265,7 +265,7 @@ func (h *harness) phaseSubjectsAndCredentials(n1 *nodeRef) {
 	}
 	fetchStatus()
 	if len(fetched) == 0 {
-		r.Fatalf("no status list credential was fetched")
+		h.fatalf("no status list credential was fetched")
 	}
 	h.call(n1, "GET", "/internal/vcr/v2/holder/"+w.Client.Name+"/vc", nil)
 	h.call(n1, "GET", "/internal/vcr/v2/issuer/vc/search?credentialType=NutsOrganizationCredential&issuer="+url.QueryEscape(w.Verifier.DID), nil)
@@ -376,7 +376,7 @@ func (h *harness) phaseCryptoAPI(n1 *nodeRef) {
 	doc := h.resolve(n1, w.Client.DID)
 	assertion, agreement := stringsOf(doc["assertionMethod"]), stringsOf(doc["keyAgreement"])
 	if len(assertion) < 2 {
-		r.Fatalf("client DID document lacks the expected keys: assertion %v, keyAgreement %v", assertion, agreement)
+		h.fatalf("client DID document lacks the expected keys: assertion %v, keyAgreement %v", assertion, agreement)
 	}
 	kid := assertion[0]
 	var ownPub map[string]any
@@ -387,7 +387,7 @@ func (h *harness) phaseCryptoAPI(n1 *nodeRef) {
 		}
 	}
 	if ownPub == nil {
-		r.Fatalf("no publicKeyJwk for %s", kid)
+		h.fatalf("no publicKeyJwk for %s", kid)
 	}
 
 	// sign_jwt
@@ -405,7 +405,7 @@ func (h *harness) phaseCryptoAPI(n1 *nodeRef) {
 				h.requested = append(h.requested, requestedSig{op: "http:sign_jwt", node: n1, kid: k, token: tok})
 				h.artefact("jwt", tok)
 			} else if i == 0 {
-				r.Fatalf("sign_jwt with %s: %s", k, resp)
+				h.fatalf("sign_jwt with %s: %s", k, resp)
 			}
 			if !r.Thorough() && i >= 1 && k != kid {
 				break
@@ -456,13 +456,13 @@ func (h *harness) phaseCryptoAPI(n1 *nodeRef) {
 	{
 		pub, _, err := jwkPublic(ownPub)
 		if err != nil {
-			r.Fatalf("own public key: %v", err)
+			h.fatalf("own public key: %v", err)
 		}
 		hd := jwe.NewHeaders()
 		_ = hd.Set(jwe.KeyIDKey, kid)
 		m, err := jwe.Encrypt(plain, jwe.WithKey(jwa.ECDH_ES_A256KW, pub), jwe.WithProtectedHeaders(hd))
 		if err != nil {
-			r.Fatalf("harness JWE: %v", err)
+			h.fatalf("harness JWE: %v", err)
 		}
 		dr := h.call(n1, "POST", "/internal/crypto/v1/decrypt_jwe", map[string]any{"message": string(m)})
 		var out struct {
@@ -484,7 +484,7 @@ func (h *harness) phaseCryptoAPI(n1 *nodeRef) {
 		}
 		out, err := jwe.Encrypt(plain, jwe.WithKey(alg, key), jwe.WithProtectedHeaders(hd))
 		if err != nil {
-			r.Fatalf("harness JWE: %v", err)
+			h.fatalf("harness JWE: %v", err)
 		}
 		return string(out)
 	}
@@ -519,7 +519,7 @@ func (h *harness) phaseCryptoAPI(n1 *nodeRef) {
 		}
 		_ = resp.JSON(&pr)
 		if resp.Status != 200 || pr.Dpop == "" {
-			r.Fatalf("create DPoP proof: %s", resp)
+			h.fatalf("create DPoP proof: %s", resp)
 		}
 		h.requested = append(h.requested, requestedSig{op: "http:dpop", node: n1, kid: k, token: pr.Dpop})
 		h.artefact("dpop", pr.Dpop)
@@ -537,6 +537,14 @@ func (h *harness) phaseCryptoAPI(n1 *nodeRef) {
 	hostileProof := (&iamflow.Holder{Key: h.foreign, JWK: pubJWKMap(h.foreign)}).DPoPProof("GET", "https://resource.example/c03", "jti-c03", time.Now(), "c03-access-token")
 	vr := h.call(n1, "POST", "/internal/auth/v2/dpop/validate", map[string]any{"dpop_proof": hostileProof, "method": "GET", "url": "https://resource.example/c03", "thumbprint": "x", "token": "c03-access-token"})
 	h.jwkOutcomes["http:dpop/validate/jwk=private-foreign"] = fmt.Sprintf("HTTP %d %s", vr.Status, short(string(vr.Body), 120))
+
+	// did:jwk whose JWK is a private key (the caller's own): the resolver is documented to refuse it
+	didJWK := "did:jwk:" + base64.RawURLEncoding.EncodeToString(mustJSON(pubJWKMap(h.foreign)))
+	dj := h.call(n1, "GET", "/internal/vdr/v2/did/"+url.PathEscape(didJWK), nil)
+	h.jwkOutcomes["http:resolve did:jwk/jwk=private-foreign"] = fmt.Sprintf("HTTP %d %s", dj.Status, short(string(dj.Body), 120))
+	if dj.Status == 200 && bytes.Contains(dj.Body, []byte(`"d"`)) {
+		r.Unspecified("caller-supplied-foreign-private-jwk-echoed/http:resolve-did-jwk")
+	}
 
 	// error paths of the signing endpoints
 	malformed := []string{"unknown-kid", "", " ", "../../sentinel/decoy", "did:web:example.com#%00", w.Client.DID, w.Client.DID + "#", strings.Repeat("k", 5000), "did:web:\x00", "ключ#1"}
@@ -591,7 +599,7 @@ func (h *harness) phaseIAM(n1 *nodeRef) {
 		for _, p := range []string{"introspect", "introspect_extended"} {
 			resp, err := node.Do("POST", w.N.Internal+"/internal/auth/v2/accesstoken/"+p, "token="+url.QueryEscape(tok), map[string]string{"Content-Type": "application/x-www-form-urlencoded"})
 			if err != nil {
-				r.Fatalf("introspect: %v", err)
+				h.fatalf("introspect: %v", err)
 			}
 			_ = resp
 		}
@@ -603,7 +611,7 @@ func (h *harness) phaseIAM(n1 *nodeRef) {
 		}
 		resp, err := w.RequestServiceAccessToken(tt)
 		if err != nil || resp.Status != 200 {
-			r.Fatalf("s2s %s token: %v %s", tt, err, resp)
+			h.fatalf("s2s %s token: %v %s", tt, err, resp)
 		}
 		var m map[string]any
 		_ = resp.JSON(&m)
@@ -639,23 +647,28 @@ func (h *harness) phaseIAM(n1 *nodeRef) {
 		redir, sid, err := w.UserFlowStart(fmt.Sprintf("c03-user-%d", i))
 		w.Scope = "test"
 		if err != nil {
-			r.Fatalf("user flow: %v", err)
+			h.fatalf("user flow: %v", err)
 		}
 		b := &pathBrowser{}
 		last, err := b.follow(redir, w.Proxy.URL, 20)
 		if err != nil {
-			r.Fatalf("user flow: %v", err)
+			h.fatalf("user flow: %v", err)
 		}
 		resp, err := w.UserToken(sid)
 		if err != nil {
-			r.Fatalf("user token: %v", err)
+			h.fatalf("user token: %v", err)
 		}
 		var m map[string]any
 		_ = resp.JSON(&m)
 		tok, _ := m["access_token"].(string)
 		if tok == "" {
-			for _, ck := range b.cookies { fmt.Printf("COOKIE %s path=%q value=%s\n", ck.Name, ck.Path, ck.Value) }; for _, hp := range b.Hops { fmt.Printf("HOP %d %s\n", hp.Status, short(hp.URL, 150)) }
-			r.Fatalf("user flow did not end in an access token (last hop %d → %s; token response %s)", last.Status, short(last.Location, 160), resp)
+			for _, ck := range b.cookies {
+				fmt.Printf("COOKIE %s path=%q value=%s\n", ck.Name, ck.Path, ck.Value)
+			}
+			for _, hp := range b.Hops {
+				fmt.Printf("HOP %d %s\n", hp.Status, short(hp.URL, 150))
+			}
+			h.fatalf("user flow did not end in an access token (last hop %d → %s; token response %s)", last.Status, short(last.Location, 160), resp)
 		}
 		introspect(tok)
 		r.Count("user_flows", 1)
@@ -681,7 +694,7 @@ func (h *harness) phaseIAM(n1 *nodeRef) {
 		}
 	}
 	if h.sessionKeys == 0 {
-		r.Fatalf("no user session wallet key could be read from the session store")
+		h.fatalf("no user session wallet key could be read from the session store")
 	}
 }
 
@@ -699,7 +712,7 @@ func (h *harness) phaseGoAPI(n1 *nodeRef) {
 		pub1 = pub
 		return ref, err
 	}); err != nil {
-		r.Fatalf("KeyStore.New: %v", err)
+		h.fatalf("KeyStore.New: %v", err)
 	}
 	h.goOp("KeyStore.New/naming-error", func() (any, error) {
 		ref, _, err := ks.New(ctx, func(crypto.PublicKey) (string, error) { return "", fmt.Errorf("c03 naming failure") })
@@ -716,13 +729,13 @@ func (h *harness) phaseGoAPI(n1 *nodeRef) {
 	kid2 := stringsOf(doc["assertionMethod"])[0]
 	priv1, priv2 := h.privateOf(n1, kid1), h.privateOf(n1, kid2)
 	if priv1 == nil || priv2 == nil {
-		r.Fatalf("cannot map kids to key files (key_reference table): %v %v", priv1 != nil, priv2 != nil)
+		h.fatalf("cannot map kids to key files (key_reference table): %v %v", priv1 != nil, priv2 != nil)
 	}
 	rsaForeign, _ := rsa.GenerateKey(rand.Reader, 2048)
 	mk := func(raw any) jwk.Key {
 		k, err := jwk.FromRaw(raw)
 		if err != nil {
-			r.Fatalf("jwk.FromRaw: %v", err)
+			h.fatalf("jwk.FromRaw: %v", err)
 		}
 		return k
 	}
@@ -794,7 +807,7 @@ func (h *harness) phaseGoAPI(n1 *nodeRef) {
 	req, _ := http.NewRequest("POST", "https://resource.example/go", nil)
 	out, err := h.goOp("KeyStore.SignDPoP", func() (any, error) { return ks.SignDPoP(ctx, *dpop.New(*req), kid1) })
 	if err != nil {
-		r.Fatalf("SignDPoP: %v", err)
+		h.fatalf("SignDPoP: %v", err)
 	}
 	h.requested = append(h.requested, requestedSig{op: "go:KeyStore.SignDPoP", node: n1, kid: kid1, token: out.(string)})
 	h.artefact("dpop", out.(string))
@@ -816,7 +829,7 @@ func (h *harness) phaseGoAPI(n1 *nodeRef) {
 	plain := []byte("c03 ecies plaintext")
 	ct, err := nutsCrypto.EciesEncrypt(pub1.(*ecdsa.PublicKey), plain)
 	if err != nil {
-		r.Fatalf("EciesEncrypt: %v", err)
+		h.fatalf("EciesEncrypt: %v", err)
 	}
 	got, err := h.goOp("KeyStore.Decrypt", func() (any, error) { return ks.Decrypt(ctx, kid1, ct) })
 	if err != nil || !bytes.Equal(got.([]byte), plain) {
@@ -831,7 +844,7 @@ func (h *harness) phaseGoAPI(n1 *nodeRef) {
 	// JWE
 	msg, err := h.goOp("KeyStore.EncryptJWE", func() (any, error) { return ks.EncryptJWE(ctx, plain, map[string]any{"kid": kid1}, pub1) })
 	if err != nil {
-		r.Fatalf("EncryptJWE: %v", err)
+		h.fatalf("EncryptJWE: %v", err)
 	}
 	body, err := h.goOp("KeyStore.DecryptJWE", func() (any, error) {
 		b, hdrs, err := ks.DecryptJWE(ctx, msg.(string))
@@ -864,10 +877,10 @@ func (h *harness) phaseGoAPI(n1 *nodeRef) {
 		im := im
 		name := uuid.NewString()
 		if err := os.WriteFile(filepath.Join(n1.keyDir, name+"_private.pem"), im.pem, 0o600); err != nil {
-			r.Fatalf("import key: %v", err)
+			h.fatalf("import key: %v", err)
 		}
 		if _, err := h.goOp("KeyStore.Link", func() (any, error) { return nil, ks.Link(ctx, im.kid, name, "1") }); err != nil {
-			r.Fatalf("Link: %v", err)
+			h.fatalf("Link: %v", err)
 		}
 		h.collectKeys()
 		resp := h.call(n1, "POST", "/internal/crypto/v1/sign_jwt", map[string]any{"kid": im.kid, "claims": map[string]any{"iss": "c03-imported"}})
@@ -876,7 +889,7 @@ func (h *harness) phaseGoAPI(n1 *nodeRef) {
 			h.artefact("jwt", tok)
 			r.Distinct("imported_key_algs", fmt.Sprint(jwsHeader(tok)["alg"]))
 		} else {
-			r.Fatalf("sign_jwt with imported key %s: %s", im.kid, resp)
+			h.fatalf("sign_jwt with imported key %s: %s", im.kid, resp)
 		}
 		resp = h.call(n1, "POST", "/internal/crypto/v1/sign_jws", map[string]any{"kid": im.kid, "headers": map[string]any{"typ": "c03"}, "payload": payload})
 		if tok := h.signedText(resp); tok != "" {
@@ -924,15 +937,27 @@ func (h *harness) phaseGoAPI(n1 *nodeRef) {
 	h.goOp("KeyStore.Resolve/missing-file", func() (any, error) { return ks.Resolve(ctx, "c03:imported:broken") })
 	h.call(n1, "POST", "/internal/crypto/v1/sign_jwt", map[string]any{"kid": "c03:imported:broken", "claims": map[string]any{"a": 1}})
 
+	// a second New whose naming function yields an existing kid: the statement is silent about re-registration of a kid
+	// (observed: the kid is silently re-pointed to the new key although New documents an error for this case)
+	kidDup := "c03:go:key-dup"
+	_, firstPub, _ := ks.New(ctx, naming(kidDup))
+	h.countOp("go:KeyStore.New")
+	if _, err := h.goOp("KeyStore.New/existing-kid", func() (any, error) { ref, _, err := ks.New(ctx, naming(kidDup)); return ref, err }); err == nil {
+		if now, err := ks.Resolve(ctx, kidDup); err == nil && pubFP(now) != pubFP(firstPub) {
+			r.Unspecified("KeyStore.New-with-existing-kid-repoints-the-kid")
+		}
+	}
+	h.collectKeys()
+
 	// delete (the secrets of the key were read above; what the node emitted about it stays in the streams)
 	kidDel := "c03:go:key-to-delete"
 	if _, err := h.goOp("KeyStore.New", func() (any, error) { ref, _, err := ks.New(ctx, naming(kidDel)); return ref, err }); err != nil {
-		r.Fatalf("New: %v", err)
+		h.fatalf("New: %v", err)
 	}
 	h.collectKeys()
 	nameDel := h.keyNameOf(n1, kidDel)
 	if _, err := h.goOp("KeyStore.Delete", func() (any, error) { return nil, ks.Delete(ctx, kidDel) }); err != nil {
-		r.Fatalf("Delete: %v", err)
+		h.fatalf("Delete: %v", err)
 	}
 	if _, err := os.Stat(filepath.Join(n1.keyDir, nameDel+"_private.pem")); err == nil {
 		r.Unspecified("deleted-key-file-still-present")
@@ -949,12 +974,12 @@ func (h *harness) phaseDIDNuts(verbosity string, env map[string]string, namer fu
 	n := node.Start(h.t, node.Options{DIDMethods: []string{"nuts"}, Verbosity: verbosity, Env: env}) // did:web refuses key agreement keys, so a subject with both methods cannot have one
 	rec, err := newRecorder(n.Internal, namer)
 	if err != nil {
-		r.Fatalf("recorder: %v", err)
+		h.fatalf("recorder: %v", err)
 	}
 	h.t.Cleanup(func() { rec.srv.Close() })
 	pub, err := newRecorder(n.Public, namer)
 	if err != nil {
-		r.Fatalf("recorder: %v", err)
+		h.fatalf("recorder: %v", err)
 	}
 	h.t.Cleanup(func() { pub.srv.Close() })
 	h.pub2 = pub
@@ -1022,7 +1047,7 @@ func (h *harness) phaseDIDNuts(verbosity string, env map[string]string, namer fu
 		body["credentialSubject"] = map[string]any{"id": nutsDIDs[1], "organization": map[string]any{"name": "Nuts Org", "city": "Nutstown"}}
 		resp := h.call(n2, "POST", "/internal/vcr/v2/issuer/vc", body)
 		if resp.Status != 200 {
-			r.Fatalf("issue with did:nuts issuer: %s", resp)
+			h.fatalf("issue with did:nuts issuer: %s", resp)
 		}
 		cred := json.RawMessage(bytes.TrimSpace(resp.Body))
 		for _, f := range []string{"ldp_vp", "jwt_vp"} {
@@ -1038,7 +1063,7 @@ func (h *harness) phaseDIDNuts(verbosity string, env map[string]string, namer fu
 		h.jweRoundTrips(n2, []string{nutsDIDs[0], ka[0]})
 	}
 	if r.Get("jwe_roundtrips_via_encrypt_jwe") == 0 {
-		r.Fatalf("no encrypt_jwe/decrypt_jwe round trip succeeded on the did:nuts node")
+		h.fatalf("no encrypt_jwe/decrypt_jwe round trip succeeded on the did:nuts node")
 	}
 	// crypto API with a did:nuts key
 	if am := stringsOf(docA["assertionMethod"]); len(am) > 0 {
@@ -1055,7 +1080,7 @@ func (h *harness) phaseDIDNuts(verbosity string, env map[string]string, namer fu
 	var txs []string
 	_ = resp.JSON(&txs)
 	if len(txs) < 4 {
-		r.Fatalf("expected DAG transactions of the did:nuts documents, got %d", len(txs))
+		h.fatalf("expected DAG transactions of the did:nuts documents, got %d", len(txs))
 	}
 	for _, tx := range txs {
 		h.artefact("dag-transaction", tx)
@@ -1089,7 +1114,7 @@ func (h *harness) positiveControl() {
 	}
 	h.r.Extra("positive_control_public_keys_seen_in_responses", fmt.Sprintf("%d of %d", seen, total))
 	if seen < 4 {
-		h.r.Fatalf("positive control failed: the public halves of the node's keys were seen in the captured responses for only %d of %d keys", seen, total)
+		h.fatalf("positive control failed: the public halves of the node's keys were seen in the captured responses for only %d of %d keys", seen, total)
 	}
 	_ = big.NewInt
 }
